@@ -270,7 +270,10 @@ func c02NewWorld(t *testing.T, cfg c02Op) *c02World {
 			} else if p.Format() == vc.JWTPresentationProofFormat {
 				// JWT presentations: the same window rule applied to nbf/exp. This is wider than what the real verifier
 				// accepts for a JWT (nbf <= now <= exp, no skew), i.e. the scripted verifier errs on the permissive side.
-				opts := proof.ProofOptions{Created: p.JWT().NotBefore()}
+				opts := proof.ProofOptions{}
+				if created := credential.PresentationIssuanceDate(p); created != nil {
+					opts.Created = *created // nbf, or iat when there is no nbf
+				}
 				if exp := p.JWT().Expiration(); !exp.IsZero() {
 					opts.Expires = &exp
 				}
@@ -1245,6 +1248,7 @@ type c02VPSpec struct {
 	NoProof   bool
 	JWT       bool     // JWT presentation (unsigned compact JWS; the verifier is scripted): times are whole seconds
 	AudExtra  bool     // JWT: aud is an array with a second, foreign audience
+	JWTIat    bool     // JWT: the creation time is carried by iat instead of nbf
 }
 
 func c02Time(ms int64) string { return time.UnixMilli(ms).UTC().Format("2006-01-02T15:04:05.000Z") }
@@ -1271,7 +1275,11 @@ func (v c02VPSpec) jwt(creds []string) string {
 		claims["iss"], claims["sub"] = *v.Signer, *v.Signer
 	}
 	if v.Created != nil {
-		claims["nbf"] = *v.Created / 1000
+		if v.JWTIat {
+			claims["iat"] = *v.Created / 1000
+		} else {
+			claims["nbf"] = *v.Created / 1000
+		}
 	}
 	if v.Expires != nil {
 		claims["exp"] = *v.Expires / 1000
@@ -1425,7 +1433,7 @@ func (g *c02Gen) baselineVP(subject string, d c02DefSpec, holder string, now int
 		Created: c02Ptr(created), Expires: c02Ptr(created + validity),
 		Domain: c02Ptr(c02PublicURL + "/oauth2/" + subject), Nonce: c02Ptr(fmt.Sprintf("n%d", g.nonceSeq))}
 	if g.rng.Intn(4) == 0 {
-		vp.JWT, vp.AudExtra = true, g.rng.Intn(2) == 0
+		vp.JWT, vp.AudExtra, vp.JWTIat = true, g.rng.Intn(2) == 0, g.rng.Intn(3) == 0
 	}
 	if g.forceFormat != nil {
 		vp.JWT, vp.AudExtra = *g.forceFormat > 0, *g.forceFormat == 2
